@@ -113,7 +113,7 @@ def eval_C15(item):
                 from astrodendro.dendrogram import periodic_neighbours
                 from astrodendro import Dendrogram
                 per = list(case['periodic'])
-                nb = periodic_neighbours(per if len(per) != 1 or case.get('per_as_list') else per[0])
+                nb = periodic_neighbours(impl.spell_axes(case, per))
                 other_shape = [s_ + 2 for s_ in case['shape']]
                 import random
                 rr = random.Random(item['pseed'])
